@@ -90,7 +90,7 @@ def xa_json(xa):
 
 
 # --------------------------------------------------------------------------- generators
-def gen_geom(rng, tier, regime, min_n=1, ndim=None, emax=6, force3=False):
+def gen_geom(rng, tier, regime, min_n=1, ndim=None, emax=6, force3=False, far=False):
     ndim = ndim or rng.choice([1, 2, 2, 3, 3, 4])
     big = 6 if tier == "quick" else 9
     n = [max(min_n, rng.choice([1, 2, 2, 3, 3, 4, 5, big])) for _ in range(ndim)]
@@ -114,7 +114,7 @@ def gen_geom(rng, tier, regime, min_n=1, ndim=None, emax=6, force3=False):
     else:
         scale_exp = rng.randint(-12, emax)
         cell = [10.0 ** scale_exp * rng.uniform(0.5, 5.0) for _ in range(ndim)]
-        off = rng.choice([0, 1, 30, 1000])
+        off = rng.choice([0, 1, 30, 1000] + ([10 ** 5, 10 ** 7, 10 ** 7] if far else []))   # far: offsets of 1e5 / 1e7 cells
         p1 = [c * rng.uniform(-off - 1, off + 1) for c in cell]
         p2 = [a + k * c for a, k, c in zip(p1, n, cell)]
     if rng.random() < 0.3:                                               # corners in any order
@@ -190,13 +190,18 @@ def _streams(rng, tier):
     def rt(regime, cnt):
         for _ in range(cnt):
             g = gen_geom(rng, tier, regime)
-            yield dict(kind="rt", geom=g, fs=gen_fieldspec(rng, g), sub=rng.getrandbits(32),
+            pre = None
+            if rng.random() < 0.35:      # history: export once, change the mesh in place, then run the whole case on the changed field
+                pre = rng.choice([dict(op="translate", v=[rng.randint(-6, 6) * (1 if regime == "exact" else 1.37) for _ in g["n"]]),
+                                  dict(op="scale", f=rng.choice([2.0, 0.5, 4.0])),
+                                  dict(op="scale", f=[rng.choice([2.0, 0.5, 1.0, 8.0]) for _ in g["n"]])])
+            yield dict(kind="rt", geom=g, fs=gen_fieldspec(rng, g), sub=rng.getrandbits(32), pre=pre,
                        name=rng.choice([None, None, "m", "field_1"]), unit=rng.choice([None, None, "T", ""]))
 
     def uneven(cnt):
         for _ in range(cnt):
             regime = rng.choice(["exact", "tol", "tol"])
-            g = gen_geom(rng, tier, regime, ndim=rng.choice([1, 2, 3]), force3=True)
+            g = gen_geom(rng, tier, regime, ndim=rng.choice([1, 2, 3]), force3=True, far=True)
             delta = rng.choice(["3/10", "1/20", "1/100", "1/100000000", "1/1000000000"])
             yield dict(kind="uneven", geom=g, fs=gen_fieldspec(rng, g, False), sub=rng.getrandbits(32), delta=delta,
                        erase=[k for k in GEOM_ATTRS if rng.random() < 0.5])
@@ -347,6 +352,15 @@ def run_rt(case, obs, fail):
     geom, fs = case["geom"], case["fs"]
     f = build_field(geom, fs, case["sub"])
     regime = geom["regime"]
+    pre = case.get("pre")
+    if pre:
+        f.to_xarray()
+        cell0 = f.mesh.cell.copy()
+        if pre["op"] == "translate":
+            f.mesh.translate([v * c for v, c in zip(pre["v"], cell0)] if regime != "exact" else pre["v"], inplace=True)
+        else:
+            f.mesh.scale(pre["f"], reference_point=f.mesh.region.pmin, inplace=True)
+        obs["tags"].append("pre:" + pre["op"])
     bnd = bound(f, regime)
     obs["field"] = field_json(f)
     xa = export(f, case)
